@@ -160,6 +160,10 @@ func cmdStress(args []string) {
 		st := stressShared(rep, files, *n, total*2/10, *sharedDocs)
 		st["wall_s"] = time.Since(t0).Seconds()
 		rep.Stages["shared"] = st
+		t1 := time.Now()
+		st2 := stressSameFile(rep, files, *n, total*1/10)
+		st2["wall_s"] = time.Since(t1).Seconds()
+		rep.Stages["samefile"] = st2
 	}
 	out, _ := json.Marshal(rep)
 	os.Stdout.Write(out)
